@@ -237,7 +237,7 @@ fn strat(tier: Tier) -> BoxedStrategy<Case> {
     prop_oneof![
         6 => synth,
         2 => (seq_case(tier.pick(60, 150), true, 1), radius()).prop_map(|(case, n)| Case::Real { case, n }),
-        1 => (prop_oneof![line_case(30, false), text_case_mix(120)], radius()).prop_map(|(case, n)| Case::Text { case, n }),
+        1 => (prop_oneof![4 => line_case(30, false), 4 => text_case_mix(120), 1 => big_line_case(130)], radius()).prop_map(|(case, n)| Case::Text { case, n }),
     ]
     .boxed()
 }
